@@ -286,7 +286,11 @@ func vParam(fr *frame, a []value) value {
 func vObserve(fr *frame, a []value) value {
 	i := fr.i
 	if len(i.obs) < 50 {
-		i.obs = append(i.obs, fmt.Sprintf("%s=%s", i.concString(a[0], "label"), toString(a[1])))
+		v := a[1]
+		if iv, ok := v.(iface); ok && iv.t != nil {
+			v = iv.v // like %v natively
+		}
+		i.obs = append(i.obs, fmt.Sprintf("%s=%s", i.concString(a[0], "label"), toString(v)))
 	}
 	return nil
 }
